@@ -139,6 +139,8 @@ def run_zero_crossing(case):
             return {"classes": ["step_too_small"], "nontrivial": True}
         raise Violation("rejected-valid-step", f"{what}: ArgumentError")
     except p.errors.FindZeroCrossingError:
+        if n >= 16 and not any(samples) and on_grid and 0 <= t <= n / rate and 2 <= step * rate <= n / 4:
+            raise Violation("crossing-not-found-in-silence", f"{what}: every sample of the recording is zero, yet 'no crossing found'")
         note_accept("FindZeroCrossingError")
         return {"classes": ["not_found"], "nontrivial": False}
     if step * rate < 2:
@@ -236,7 +238,26 @@ def run_tg_boundaries(case):
         for e in ta["entries"]:
             for x in e[:-1]:
                 check_crossing_value(x, samples, rate, True, f"tgBoundariesToZeroCrossings tier {tb['name']} entry {e}")
-    return {"classes": ["returned"] + (["textgrid_shorter_than_recording"] if short else []), "nontrivial": True}
+    cl2 = []
+    if case.get("edit_then_again") and n >= 8:
+        # the audio is edited in place (same length), then the same textgrid is snapped again: crossings of the audio as it is now
+        k = 1 + case["edit_then_again"] % 5
+        samples2 = samples[k:] + samples[:k]
+        wav.replaceSegment(0, dur, to_bytes(samples2, width))
+        if from_bytes(wav.frames, width) == samples2:
+            try:
+                with quiet(), _Deadline("tgBoundariesToZeroCrossings (second call)"):
+                    res2 = praatio_scripts.tgBoundariesToZeroCrossings(tg, wav, case["adj_points"], case["adj_intervals"])
+            except p.errors.PraatioException:
+                res2 = None
+            if res2 is not None:
+                for tb, ta in zip(before["tiers"], snap_tg(res2)["tiers"]):
+                    if (case["adj_intervals"] if tb["type"] == "interval" else case["adj_points"]):
+                        for e in ta["entries"]:
+                            for x in e[:-1]:
+                                check_crossing_value(x, samples2, rate, True, f"second tgBoundariesToZeroCrossings after an in-place edit, tier {tb['name']} entry {e}")
+                cl2.append("snapped_again_after_edit")
+    return {"classes": ["returned"] + cl2 + (["textgrid_shorter_than_recording"] if short else []), "nontrivial": True}
 
 
 def run_splice(case):
@@ -446,7 +467,8 @@ def tgb_cases(draw):
     ivs = [[cuts[2 * i], cuts[2 * i + 1], f"w{i}"] for i in range(k)]
     pts = [[i, f"p{q}"] for q, i in enumerate(sorted(draw(st.lists(st.integers(0, n), max_size=3, unique=True))))]
     return {"width": width, "rate": rate, "samples": s, "intervals": ivs, "points": pts,
-            "adj_points": draw(st.booleans()), "adj_intervals": draw(st.booleans()), "short_tg": draw(st.booleans())}
+            "adj_points": draw(st.booleans()), "adj_intervals": draw(st.booleans()), "short_tg": draw(st.booleans()),
+            "edit_then_again": draw(st.one_of(st.none(), st.integers(0, 9)))}
 
 
 @st.composite
